@@ -1,6 +1,6 @@
 import MokapotVerif.Model.PinTsv
 /-!
-# Text-level lemmas for the PIN → TSV model: split/join, lines, strip
+# Text-level lemmas for the PIN → TSV model: split/join, lines, chomp
 -/
 namespace Mk
 
@@ -152,7 +152,7 @@ theorem renderLines_true (ls : List Str) : renderLines ls true = (ls.map (· ++ 
       simp only [renderLines, List.map_cons, List.flatten_cons] at ih ⊢
       rw [ih]; simp
 
-/-! ## strip -/
+/-! ## chomp (`rstrip("\r\n")`) -/
 
 theorem dropWhile_append_pad (p : Char → Bool) (a t : Str) (ha : ∀ c ∈ a, p c = true)
     (ht : ∀ c, t.head? = some c → p c = false) : (a ++ t).dropWhile p = t := by
@@ -182,55 +182,29 @@ theorem dropWhile_of_all (p : Char → Bool) (l : Str) (h : l.all p = true) : l.
     simp only [List.all_cons, Bool.and_eq_true] at h
     simp [h.1, ih h.2]
 
-theorem rstrip_append_space (x : Str) (c : Char) (hc : pyIsSpace c = true) :
-    rstrip (x ++ [c]) = rstrip x := by
-  simp [rstrip, hc]
+theorem chomp_append_eol (x : Str) (c : Char) (hc : isEol c = true) : chomp (x ++ [c]) = chomp x := by
+  simp [chomp, hc]
 
-theorem strip_append_space (l : Str) (c : Char) (hc : pyIsSpace c = true) :
-    strip (l ++ [c]) = strip l := by
-  unfold strip lstrip
-  rw [dropWhile_append_all]
-  by_cases hall : l.all pyIsSpace = true
-  · rw [if_pos hall]
-    have h1 : List.dropWhile pyIsSpace [c] = [] := by simp [hc]
-    have h2 : List.dropWhile pyIsSpace l = [] := by
-      exact dropWhile_of_all _ _ hall
-    rw [h1, h2]
-  · rw [if_neg hall]
-    exact rstrip_append_space _ _ hc
+theorem chomp_append_nl (l : Str) : chomp (l ++ ['\n']) = chomp l := chomp_append_eol l _ (by decide)
 
-theorem space_nl : pyIsSpace '\n' = true := by decide
-
-theorem strip_append_nl (l : Str) : strip (l ++ ['\n']) = strip l := strip_append_space l _ space_nl
-
-theorem headNonSpace_iff (t : Str) : headNonSpace t = true ↔ ∃ c r, t = c :: r ∧ pyIsSpace c = false := by
-  cases t with
-  | nil => simp [headNonSpace]
-  | cons c r => simp [headNonSpace]
-
-theorem lastNonSpace_iff (t : Str) : lastNonSpace t = true ↔ ∃ c r, t = r ++ [c] ∧ pyIsSpace c = false := by
-  rcases List.eq_nil_or_concat t with h | ⟨r, c, h⟩
-  · subst h; simp [lastNonSpace]
-  · subst h; simp [lastNonSpace]
-
-/-- `strip` removes exactly the whitespace padding around a text that starts
-and ends with a non-whitespace character -/
-theorem strip_pad (a t b : Str) (ha : ∀ c ∈ a, pyIsSpace c = true) (hb : ∀ c ∈ b, pyIsSpace c = true)
-    (hh : headNonSpace t = true) (hl : lastNonSpace t = true) :
-    strip (a ++ t ++ b) = t := by
-  obtain ⟨c, r, rfl, hc⟩ := (headNonSpace_iff t).mp hh
-  obtain ⟨c', r', hr', hc'⟩ := (lastNonSpace_iff _).mp hl
-  unfold strip lstrip rstrip
-  rw [List.append_assoc, dropWhile_append_pad pyIsSpace a (c :: r ++ b) ha]
-  · rw [List.reverse_append, dropWhile_append_pad pyIsSpace b.reverse (c :: r).reverse]
-    · simp
-    · intro x hx; exact hb x (by simpa using hx)
-    · intro x hx
-      rw [hr'] at hx
-      simp at hx
-      rw [← hx]; exact hc'
+/-- `rstrip("\r\n")` removes exactly the carriage returns / newlines that follow a text which does
+not itself end with one -/
+theorem chomp_pad (t b : Str) (hb : ∀ c ∈ b, isEol c = true)
+    (hl : ∀ c, t.getLast? = some c → isEol c = false) : chomp (t ++ b) = t := by
+  unfold chomp
+  rw [List.reverse_append, dropWhile_append_pad isEol b.reverse t.reverse]
+  · simp
+  · intro x hx; exact hb x (by simpa using hx)
   · intro x hx
-    simp at hx
-    rw [← hx]; exact hc
+    apply hl
+    simpa [List.head?_reverse] using hx
+
+theorem chomp_nil : chomp [] = [] := rfl
+
+/-- what `chomp` leaves is a prefix of the line -/
+theorem chomp_prefix (l : Str) : ∃ b, l = chomp l ++ b := by
+  refine ⟨(l.reverse.takeWhile isEol).reverse, ?_⟩
+  unfold chomp
+  rw [← List.reverse_append, List.takeWhile_append_dropWhile, List.reverse_reverse]
 
 end Mk
